@@ -74,12 +74,6 @@ type streamWitness struct {
 // ---------------------------------------------------------------------------------------------
 // command sequences
 
-func randBytes(r *rand.Rand, n int) []byte {
-	b := make([]byte, n)
-	r.Read(b)
-	return b
-}
-
 func putCmd(r *rand.Rand, vlen int, compressible bool) *pb.Command {
 	k := randBytes(r, 1+r.Intn(24))
 	var v []byte
@@ -119,15 +113,24 @@ func genCommands(r *rand.Rand, profile string, env *codecEnv) []*pb.Command {
 			}
 			out = append(out, putCmd(r, vl, comp))
 		}
+	case "medium":
+		// incompressible values of a few KiB: snappy stores such blocks literally, so the position of
+		// every length prefix in the raw file is known and chunk boundaries can be aimed at them
+		n := 20 + r.Intn(280)
+		for i := 0; i < n; i++ {
+			out = append(out, putCmd(r, 1024+r.Intn(7168), false))
+		}
 	case "many":
 		n := 500 + r.Intn(1501)
 		for i := 0; i < n; i++ {
 			out = append(out, putCmd(r, r.Intn(120), r.Intn(4) == 0))
 		}
 	case "large":
-		n := 3 + r.Intn(8)
+		n := 3 + r.Intn(6)
 		for i := 0; i < n; i++ {
-			switch r.Intn(4) {
+			switch r.Intn(5) {
+			case 4:
+				out = append(out, putCmd(r, 3000+r.Intn(30000), false))
 			case 0:
 				out = append(out, putCmd(r, r.Intn(200), false))
 			case 1:
@@ -307,6 +310,11 @@ func cutPlan(r *rand.Rand, mode string, l *layout) []int64 {
 		}
 	case "random":
 		randomCuts(4000)
+		for t := 0; t < 4 && len(l.pOff) > 0; t++ {
+			if raw, ok := l.rawOffsetOf(l.pOff[r.Intn(len(l.pOff))] + 1 + int64(r.Intn(7))); ok {
+				cuts = append(cuts, raw)
+			}
+		}
 	case "targeted":
 		// boundaries strictly inside length prefixes and inside snappy chunk headers
 		k := len(l.pOff)
@@ -555,6 +563,8 @@ func (f *fakeTables) take(name string) (readResult, bool) {
 	return r, ok
 }
 
+var readBufs = sync.Pool{New: func() any { b := make([]byte, 4*1024*1024); return &b }}
+
 // readMessages reads a snapshot file message-wise the way production does.
 func readMessages(reader io.Reader) (res readResult) {
 	defer func() {
@@ -562,7 +572,9 @@ func readMessages(reader io.Reader) (res readResult) {
 			res.panic = fmt.Sprint(p)
 		}
 	}()
-	buf := make([]byte, 4*1024*1024)
+	bp := readBufs.Get().(*[]byte)
+	defer readBufs.Put(bp)
+	buf := *bp
 	for {
 		n, err := reader.Read(buf)
 		if err == io.EOF {
@@ -700,7 +712,7 @@ func planFor(r *rand.Rand, c streamCase) streamPlan {
 		p.Poison = false
 		p.Compressor = []string{"", "gzip", "snappy", "zstd"}[(c.Idx/7)%4]
 	}
-	prof := []string{"small", "small", "api", "many", "large", "one", "empty", "small", "api", "large"}
+	prof := []string{"small", "medium", "api", "many", "large", "one", "empty", "small", "api", "medium", "api", "medium"}
 	p.Profile = prof[r.Intn(len(prof))]
 	switch c.Idx % 8 {
 	case 0, 6:
@@ -1084,6 +1096,7 @@ func runStreamCaseOnce(se *streamEnv, c streamCase, noPoison bool) (pv *pendingV
 		r.Sample(map[string]any{"part": "stream", "plan": plan, "commands": len(cmds), "first_commands": describeCmds(cmds, 4), "snapshot_file_bytes": len(raw1),
 			"chunks": len(job.lens), "first_chunk_lengths": w.ChunkHead, "chunk_boundaries": kinds, "messages_read_back": len(result.msgs), "result": "same sequence, same boundaries"})
 	}
+	return nil
 }
 
 func recvShort(s string) string {
